@@ -172,6 +172,22 @@ PROPS["C09"] = {
     ],
 }
 
+PROPS["C14"] = {
+    "level": "other",
+    "technique": "Verus contracts on the extracted ShardSplitter::resume_split, run_from_phase, SplitProgress::next_phase (ghost event log: a resumed split carries out exactly the phases after the recorded one, each once, in protocol order, clean-up last and only after the cut-over; on interruption only a prefix ran and the progress file never records a phase that was not carried out) and run_cutover (over a ghost catalog whose every request may fail before or after taking effect: every exit state is resumable, success = the state of an uninterrupted cut-over, no fault => success), the partition loop of split_batch (C15 unit); Kani on the extracted SplitPhase enum and next_phase (discriminant order = protocol order, successor function)",
+    "verus": ["c14_split.rs.in", "c15_split.rs.in"],
+    "kani": ["c14_phases"],
+    "explanation": "Decided for the phase engine (resume point, order, bookkeeping never ahead of work), for crash-consistency of the cut-over sub-steps, and for row partition of one batch. Not under contract: the back-fill loop (per-source bookkeeping, deterministic target paths, register-after-put), clean-up's delete loop, and the composition 'resume as often as needed reaches the same final state' as an induction over whole histories - the per-call contracts (every exit resumable + what remains is a suffix of the protocol) are its inductive step, the induction itself is not mechanised. Defects F17/F17b found by these contracts were repaired.",
+    "assumptions": [
+        "each phase body is abstracted by one event (Ran(phase)) that either happens completely or fails without a visible effect on the event log; the cut-over unit refines this for Cutover, the other phases' internal crash-consistency is not under contract",
+        "persist_progress may fail before or after taking effect; load_progress returns what was last persisted (object-store read-after-write)",
+        "run_backfill_with_progress / run_cutover do not change progress.completed_phase or old_shard (run_cutover: proved for old_shard in its own unit)",
+        "catalog shims of the cut-over unit: update_shard_metadata is a generation CAS (C13 units), complete_split removes the split state and marks the old shard for deletion, get_* read the ghost catalog",
+        "`phase as u8` equals the protocol position (Kani harness discriminant_order_is_protocol_order on the extracted enum)",
+        "tokio::time::sleep has no effect on state",
+    ],
+}
+
 PROPS["C15"] = {
     "level": "other",
     "technique": "Verus contracts on the extracted partition loops (Ingester::split_batch_by_key and ShardSplitter::split_batch: every row index on exactly one side, rows below the split point on the lower side, rows at or above it on the upper side, order kept), on write_with_split_awareness (effect order; lower side to new_shards[0], upper side to new_shards[1], each non-empty side to exactly one new shard) and on the keep-mask loop of dedup_batches (exactly the rows equal in every column to an earlier row are masked)",
